@@ -1,6 +1,6 @@
 """Per-property registration used by ./check: engine, budgets, evidence texts."""
 
-ENGINES = ["poolsim"]
+ENGINES = ["poolsim", "msigsim", "bqsim", "ledger"]
 
 REGISTRY = {
     "C08": {
@@ -32,3 +32,90 @@ REGISTRY = {
                         "single caller: concurrent callers of the pool are not explored here"],
     },
 }
+
+
+import ast as _ast, os as _os
+_here = _os.path.dirname(_os.path.abspath(__file__))
+
+
+def _load(engine):
+    return _ast.literal_eval(open(_os.path.join(_here, engine, "REGISTRY_ENTRY.py")).read())
+
+
+REGISTRY["C18"] = _load("msigsim")
+REGISTRY["C20"] = _load("bqsim")
+
+_LEDGER_COMPONENTS = {
+    "real": ["pkg/core.Blockchain incl. Run() loop, persist timer, GC, notification dispatcher (one instance per node)",
+             "pkg/core/dao, native contracts, interop layer, VM, mempool, stateroot module, MPT",
+             "storage.MemoryStore / BoltDB / LevelDB behind the simdisk wrapper (pass-through + batch log)",
+             "block and transaction binary codecs (every block reaches a replica as bytes)"],
+    "stub": ["block producer = harness (packs the producer node's real mempool, signs with the real validator keys the way "
+             "consensus.newBlockFromContext fills the header)",
+             "clock = testing/synctest bubble clock; persist timer fires only at plan-chosen ticks",
+             "helper contracts are hand-assembled NeoVM code (ledger/contract.go), not compiler output"],
+}
+_LEDGER_ASSUMPTIONS = [
+    "protocol-level settings (StateRootInHeader, P2PSigExtensions, MaxTraceableBlocks, hard-fork heights of the unit-test "
+    "network) are drawn per run and shared by all nodes; only node-local settings differ between nodes",
+    "within one driver event the node's own goroutines run to quiescence on one P; their relative order is not chosen by the tape",
+    "Go map iteration order inside neo-go is not controlled; oracles are order-insensitive",
+]
+_LEDGER_RULE = ("one run = a rapid-drawn history (bootstrap funding block, optional election blocks, then 2-24 (thorough: 2-60) "
+                "blocks of 0-5 operations each out of 16 kinds: GAS/NEO transfers incl. self/zero/to contracts, votes, candidate "
+                "(un)registration, committee policy changes, role designation, deploy/update/destroy of helper contracts, storage "
+                "put/delete/find, notifications, nested calls with try/catch and throwing callees, token moves from contracts, "
+                "notary deposit/lock/withdraw, Conflicts/HighPriority/NotValidBefore attributes) produced on node P and fed as "
+                "bytes to 1-3 replicas with independently drawn node-local settings (backend memory/BoltDB/LevelDB, "
+                "KeepOnlyLatestState, RemoveUntraceableBlocks+GC period, VerifyTransactions, SaveStorageBatch, SaveInvocations, "
+                "mempool preload none/all/half), flush policy (only timer ticks / every block / tape-chosen), clean restarts at "
+                "drawn heights, and fake-clock ticks that fire the real persist timer and GC of every node. ")
+
+REGISTRY["C01"] = {
+    "engine": "ledger",
+    "level": "exploration",
+    "level_text": ("seeded search over histories x node-local configurations x flush schedules x restart heights with the real "
+                   "Blockchain on every node; after every block, flush and restart the complete observation of the node "
+                   "(state root, AERs, full contract storage, governance, policy, contracts, balances) must equal the producer's; "
+                   "sampled, not exhaustive"),
+    "level_note": "trusted: harness observer (ledger/digest.go) and block producer; see assumptions",
+    "design_ref": "DESIGN.md section 2, C01",
+    "technique": "deterministic simulation: replicated real ledgers under seeded flush/restart/configuration schedules, pairwise observation equality, shrinking and replay",
+    "budget": {"quick": 75, "thorough": 1800},
+    "chunk": 4, "shrink_s": 90, "det_runs": 12, "inflight": True,
+    "rule": _LEDGER_RULE + "Oracle: per height and node, observation == producer's, also after every flush and cold restart; no block refused. "
+            "Non-trivial = at least one fault (forced flush, timer tick, clean restart) or probe fired; distinct = distinct event-log hash "
+            "(the log contains every operation and every state root).",
+    "probes": ["forced_flush", "timer_flush_tick", "clean_restart", "backend_boltdb", "backend_leveldb", "backend_memory",
+               "preloaded_tx", "tx_fault", "tx_halt", "validator_set_change", "election_block", "contract_deployed",
+               "contract_updated", "contract_destroyed", "tx_rejected_by_pool"],
+    "components": _LEDGER_COMPONENTS,
+    "assumptions": _LEDGER_ASSUMPTIONS,
+}
+REGISTRY["C05"] = dict(REGISTRY["C01"], **{
+    "level_text": ("the same replicated-ledger simulation with an arithmetic monitor after every block on the producer and after every "
+                   "restart on replicas: NEO supply = 100000000 = sum of balances, GAS supply = sum of balances, candidate votes and "
+                   "voters count recomputed from raw account records, Notary GAS = sum of deposits, no negative balance, per-account "
+                   "balance delta = net Transfer events of HALTed executions (OnPersist/PostPersist included)"),
+    "level_note": "trusted: storage decoders of pkg/core/state used by the monitor; GAS sent to the Notary hash before the contract's activation hard fork is not generated (no contract exists to record a deposit)",
+    "design_ref": "DESIGN.md section 2, C05",
+    "technique": "deterministic simulation: conservation invariants monitored over seeded histories with restarts (caches rebuilt from storage)",
+    "rule": _LEDGER_RULE + "Oracle: independent arithmetic over raw NEO/GAS/Notary storage and AER Transfer events after every block. "
+            "Non-trivial/distinct as for C01.",
+    "probes": ["delta_checked_blocks", "candidate_with_votes", "voters_present", "notary_deposit_present", "clean_restart",
+               "validator_set_change", "election_block", "tx_fault", "op_vote", "op_register", "op_unregister", "op_notary", "op_payContract"],
+})
+REGISTRY["C03"] = dict(REGISTRY["C01"], **{
+    "level_text": ("the same replicated-ledger simulation; the harness keeps per height the flat storage map read from the producer's "
+                   "live store and compares, at tape-chosen later moments and on differently configured nodes, full SeekStates "
+                   "enumeration, paged FindStates, GetState of present and absent keys, proofs (valid, tampered, for absent keys) "
+                   "and a battery of read-only historic invocations against it"),
+    "level_note": "trusted: flat map taken through Blockchain.SeekStorage on the producer; historic invocations only on archival nodes; battery scripts read state only",
+    "design_ref": "DESIGN.md section 2, C03",
+    "technique": "deterministic simulation: per-height reference map vs trie reads/proofs/historic VM under seeded flush, restart and GC schedules",
+    "rule": _LEDGER_RULE + "Oracle: everything readable under root_h equals the flat map of height h; tampered proofs never verify to another value. "
+            "Non-trivial/distinct as for C01.",
+    "probes": ["c03_roots_verified", "c03_old_root_verified", "c03_paged_find", "c03_proofs_verified", "c03_tampered_proofs",
+               "c03_absent_keys", "c03_historic_invocations", "c03_unretained_root_fails_cleanly", "c03_unretained_root_still_right",
+               "clean_restart", "forced_flush", "timer_flush_tick"],
+})
